@@ -145,11 +145,18 @@ impl HistMonitor for Twin {
                     let first_abs = |from: usize| (from..s.cap).find(|v| !keys.contains(v));
                     // (one of the two positions is the reloaded graph's, the other the original's;
                     //  s.m.pos is the main graph's, whichever that is)
-                    if self.reloaded_is_main {
+                    let (pa, pb) = if self.reloaded_is_main {
                         // main is the reloaded graph (pre_main_pos), the twin the original (orig_pos)
-                        first_abs(self.orig_pos) == first_abs(self.pre_main_pos)
+                        (self.orig_pos, self.pre_main_pos)
                     } else {
-                        first_abs(self.pre_main_pos) == first_abs(self.hook_twin_pos.take().unwrap_or(pre_reloaded_pos))
+                        (self.pre_main_pos, self.hook_twin_pos.take().unwrap_or(pre_reloaded_pos))
+                    };
+                    if matches!(op, Op::NextId) {
+                        first_abs(pa) == first_abs(pb)
+                    } else {
+                        // compound calls allocate several times and may change the present set in
+                        // between: only identical positions guarantee identical ids throughout
+                        pa == pb
                     }
                 }
             };
